@@ -164,6 +164,15 @@ func runCheck(def *CheckDef, tier string, seed int64, repo string, workers int, 
 	}
 	timeout := 30000
 	cross := 0
+	checkBudget := 25 * time.Minute // whole-check wall-clock budget after which no further job is started
+	if tier == "thorough" {
+		checkBudget = 5 * time.Hour
+	}
+	if v := os.Getenv("VERIF_CHECK_BUDGET_S"); v != "" {
+		if n, err := strconv.Atoi(v); err == nil {
+			checkBudget = time.Duration(n) * time.Second
+		}
+	}
 	jobBudget := 900 * time.Second
 	if tier == "thorough" {
 		jobBudget = 2 * time.Hour
@@ -222,7 +231,13 @@ func runCheck(def *CheckDef, tier string, seed int64, repo string, workers int, 
 				// jobs are skipped (they are listed as not run; this only happens on a tree that violates the property)
 				mu.Lock()
 				stop := violJobs >= 6
+				late := time.Since(t0) > checkBudget
 				mu.Unlock()
+				if late && !stop {
+					results[i] = &sym.JobResult{Job: jobs[i], PathsByEnd: map[string]int{"not-run-check-budget": 1}, Covers: map[string]int{}, Asserts: map[string]int{}, Funcs: map[string]int{},
+						Inconclusive: []string{fmt.Sprintf("not run: the check's wall-clock budget of %v was used up", checkBudget)}}
+					continue
+				}
 				if stop {
 					results[i] = &sym.JobResult{Job: jobs[i], PathsByEnd: map[string]int{"skipped-after-violations": 1}, Covers: map[string]int{}, Asserts: map[string]int{}, Funcs: map[string]int{}}
 					skipped++
